@@ -203,3 +203,14 @@ def sibling_gen_values(algo="sha256", prefix_hex_len=4):
                 return _coll[k]
             seen.setdefault(hx, (n, tag))
     raise RuntimeError("no sibling values found")
+
+
+# Integrity strings at the edges of "can name a content file": a known algorithm and ONE digest whose text is canonical,
+# padded, standard-alphabet base64 of at least the 3 bytes the content path is split into (hex 2/2/rest). Whether each is
+# usable is decided by the reference (ref.usable_sri), never listed here.
+SRI_EDGE = [
+    "sha1-AAAA", "sha1-AAA=", "sha1-AA==", "sha1-AAAAAA==", "sha1-AAAAAAA=", "sha1-AAAAAAAA", "sha1-++++", "sha1-////", "sha1-+/+/", "sha1-0000", "sha1-9999", "sha1-5678",
+    "sha1-zzzz", "sha1-azAZ", "sha1-AAAAAB==", "sha1-AAAAAQ==", "sha1-AAAAAP==", "sha1-AAAAAAE=", "sha1-AAAAAAB=", "sha1-AAAAAAC=", "sha1-AAAAAAD=", "sha1-A===", "sha1-AAAAA",
+    "sha1-AAAAAA", "sha1-AAAAAAA", "sha1-AAA_", "sha1-AAA-", "sha1-AA A", "sha1-", "sha256-/+8=", "sha256-/+8A", "sha512-++8=", "sha384-9w==", "sha256-9999AA==", "sha256-0000AAA=",
+    "xxh3-AAAA", "xxh3-AAA=", "sha1-2jmj7l5rSw0yVb/vlWAYkK/YBwk=", "sha1-2jmj7l5rSw0yVb/vlWAYkK/YBwl=", "sha1-====", "sha1-AAAA====", "sha1-=AAA", "sha1-AA=A",
+]
